@@ -198,3 +198,11 @@ func (c *Ctx) parallelWorker(n int, fn func(i int)) int {
 // Lead is true in exactly one process of a sharded run (and in unsharded runs): use it to
 // guard serial work that must not be repeated by every worker.
 func (c *Ctx) Lead() bool { return !c.worker || c.shard == 0 }
+
+// Mine statically assigns stream item i to one worker (round robin); unsharded runs own everything.
+func (c *Ctx) Mine(i int) bool {
+	if !c.worker {
+		return true
+	}
+	return i%c.nshards == c.shard
+}
